@@ -595,6 +595,14 @@ theorem ev_good : ∀ s : Sp, supported ptm s = true → ∃ o, ev ptm s = .ok o
     exact ⟨.finst (.tuplePos [denote x, denote y] false),
       by simp [ev, hex, hey, tupleItem_good gx h.1.2, tupleItem_good gy h.2, mkItems],
       good_finst _ _ rfl rfl⟩
+  | pipeLit x v n ih =>
+    intro h
+    simp only [supported, Bool.and_eq_true] at h
+    obtain ⟨ox, hev, g⟩ := ih h.1.1
+    have hfo : isFieldObj ox = true := by rw [g.fo]; exact h.1.2
+    exact ⟨.finst (.anyOf [denote x, .enumLit [v]]),
+      by simp [ev, hev, hfo, getItem_fieldObj g.gt (by simp [hfo])],
+      good_finst _ _ rfl (by simp [isFieldExpr, h.1.2])⟩
 
 theorem sameMeaning_denote {s t : Sp} (h : SameMeaning s t) : denote s = denote t := by
   induction h with
@@ -611,6 +619,9 @@ theorem sameMeaning_denote {s t : Sp} (h : SameMeaning s t) : denote s = denote 
   | alt f g _ _ ihx ihy => cases f <;> cases g <;> simp [mkAlt, denote, ihx, ihy]
   | scls d n m => rfl
   | tup f g _ _ ihx ihy => cases f <;> cases g <;> simp [mkTup, denote, ihx, ihy]
+  | pipeLit v n m _ ih => simp [denote, ih]
+  | pipeLitAnyOf v n m _ ih => simp [denote, ih]
+  | anyOfPipeLit v n m _ ih => simp [denote, ih]
 
 theorem kwAllowed_fieldExpr {s : Sp} (h : kwAllowed s = true) : isFieldExpr s = true := by
   cases s <;> simp [kwAllowed] at h <;> rfl
